@@ -37,6 +37,9 @@ theorem okO_drop : DropClosed OkO := by
   intro w k ⟨h1, h2⟩
   exact ⟨fun f hf => h1 f (List.mem_of_mem_drop hf), Nat.le_trans (fieldsText_drop_le w k) h2⟩
 
+theorem posStrict_txtO (T : Str) : PosStrict (txtO T) :=
+  posStrict_of_cons _ (fun a w => by simp only [txtO_cons, List.length_append, List.length_cons]; omega)
+
 theorem inCls_notCommaBar (c : Char) : inCls true [.ch ',', .ch '|'] c = true ↔ c ≠ ',' ∧ c ≠ '|' := by
   simp [inCls, CI.matches]
 
